@@ -104,8 +104,20 @@ func discharge(vc *VC, ob *Oblig, timeoutS float64, allMustAgree bool) {
 	if quick > 3 {
 		quick = 3
 	}
+	total := 0.0
+	if len(vc.items) > 400 && !allMustAgree {
+		// large encodings: first try the cone-of-influence slices (sound for proving)
+		for lvl := 1; lvl <= 2; lvl++ {
+			rs := runSolver(solvers[0], vc.SlicedQuery(ob, false, lvl), quick)
+			total += rs.secs
+			if rs.verdict == "unsat" {
+				ob.Result, ob.Solver, ob.Secs = "unsat", fmt.Sprintf("%s (slice %d)", rs.solver, lvl), total
+				return
+			}
+		}
+	}
 	r := runSolver(solvers[0], q, quick)
-	total := r.secs
+	total += r.secs
 	if r.verdict == want && !allMustAgree {
 		ob.Result, ob.Solver, ob.Secs, ob.Out = r.verdict, r.solver, total, ""
 		return
@@ -236,6 +248,11 @@ func dischargeAll(vcs []*VC, timeoutS float64, workers int, allMustAgree bool) {
 				discharge(j.vc, j.ob, timeoutS, allMustAgree)
 			}
 		}()
+	}
+	for _, vc := range vcs {
+		if len(vc.items) > 400 {
+			vc.prepareSlicing()
+		}
 	}
 	for _, vc := range vcs {
 		for _, ob := range vc.obligs {
